@@ -475,13 +475,35 @@ class PathCtx:
             ok &= self.eq("%s/d%s%d" % (name, wrt, k), lhs, rhs, kind)
         return ok
 
-    def deriv_vec(self, name, out_vec, J, wrt, kind="DERIV"):
-        """J is the Jacobian of (wrt -> vector-valued out): D out[dir_k] == J e_k"""
+    def inverse_stub_of(self, out_name):
+        """if output `out_name` is exactly the result X of a stubbed Eigen inverse (A-EIGEN-INV:
+        M*X = I for det M != 0), return the polynomial matrix M, else None"""
+        o = self.path.outs.get(out_name)
+        if o is None:
+            return None
+        for (n, mids, xids) in self.path.invs:
+            if o.rows == n and o.cols == n and list(o.ids) == list(xids):
+                M = np.empty((n, n), dtype=object)
+                for cc in range(n):
+                    for rr in range(n):
+                        M[rr, cc] = self.alg.P(mids[cc * n + rr])
+                return M
+        return None
+
+    def deriv_vec(self, name, out_vec, J, wrt, kind="DERIV", J_inverse_of=None):
+        """J is the Jacobian of (wrt -> vector-valued out): D out[dir_k] == J e_k.
+        If J is the stubbed inverse of a matrix M (J_inverse_of=M) the equivalent obligation
+        M * D out[dir_k] == e_k is discharged instead (M invertible: A-EIGEN-INV)."""
         ok = True
         ov = np.asarray(out_vec, dtype=object).reshape(-1)
+        R = self.alg.R
         for k, direction in self.directions(wrt):
             lhs = self.D(direction, ov)
-            ok &= self.eq("%s/d%s%d" % (name, wrt, k), lhs, np.asarray(J[:, k], dtype=object).reshape(-1), kind)
+            if J_inverse_of is not None:
+                ek = np.array([R.one if i == k else R.zero for i in range(len(ov))], dtype=object)
+                ok &= self.eq("%s/d%s%d" % (name, wrt, k), np.dot(J_inverse_of, lhs), ek, kind)
+            else:
+                ok &= self.eq("%s/d%s%d" % (name, wrt, k), lhs, np.asarray(J[:, k], dtype=object).reshape(-1), kind)
         return ok
 
     def lift_is_sound(self, name, wrt):
